@@ -163,7 +163,7 @@ theorem step_execBody {m n : Nat} (ih : AllGood m n) (s : State) (o : Obj) (b : 
     · split
       · exact good_of_same _ (Same.rfl' s)
       · split
-        · exact good_of_same _ (Same.rfl' s)
+        · exact good_of_same _ ⟨rfl, rfl, rfl, rfl, rfl⟩
         · exact good_of_same _ ⟨rfl, rfl, rfl, rfl, rfl⟩
     · split
       · exact good_of_same _ ⟨rfl, rfl, rfl, rfl, rfl⟩
